@@ -61,6 +61,21 @@ def run_shard(spec, rep):
 
             comp = pickle.loads(pickle.dumps(comp))  # what joblib / multiprocessing / a cache hands back: equal, not identical strings
             cls += "-pickled"
+        if comp.name == "S" and rng.random() < 0.2:
+            # edit-then-use: the component is used once, then its vapour-pressure equation is replaced in place (type and
+            # constants of another synthetic component, field by field or as a new object); everything below is judged on
+            # the edited object
+            try:
+                comp.get_vaporisation_heat(300.0), comp.get_vapor_pressure(300.0)
+            except Exception:
+                pass
+            donor = gen.synth_component(rng, "D").vapour_pressure_constants
+            if rng.random() < 0.5:
+                w = comp.vapour_pressure_constants
+                w.a, w.b, w.c, w.type = donor.a, donor.b, donor.c, gen.fresh_str(donor.type)
+            else:
+                comp.vapour_pressure_constants = donor
+            cls += "-edited"
         v = comp.vapour_pressure_constants
         while True:
             t = rng.uniform(200, 500)
